@@ -490,7 +490,7 @@ def main(argv=None) -> int:
 
             continue
 
-        if n_viol < 6:
+        if n_viol < 6 and not os.environ.get('PFSTVERIF_NOSHRINK'):
             try:
                 fail = shrink(mod, fail, bucket, shrink_budget, params.get('case_timeout', 30))
             except Exception:
